@@ -133,11 +133,52 @@ def _decorator_kind(fn):
     return kinds[0] if kinds else "plain"
 
 
+def _captures_frame(fn):
+    """does the helper create a deferred body (lambda, nested def, generator expression) that refers to one of
+    the helper's parameters or locals?  Such a closure captures the helper's per-call frame; expanding the
+    helper in place would make it capture the caller's variables instead (late binding in a loop or
+    comprehension), which is a different program."""
+    a = fn.args
+    own = {x.arg for x in a.args + a.kwonlyargs + a.posonlyargs}
+    for n in _own_nodes(fn):
+        if isinstance(n, ast.Name) and isinstance(n.ctx, ast.Store):
+            own.add(n.id)
+    consumed = set()  # generator expressions handed straight to something that exhausts them at once
+    CONSUMERS = {"any", "all", "sum", "min", "max", "list", "tuple", "set", "frozenset", "dict", "sorted", "next", "len", "bytes", "bytearray"}
+    for n in _own_nodes(fn):
+        if isinstance(n, ast.Call) and n.args and isinstance(n.args[0], ast.GeneratorExp):
+            f = n.func
+            name = f.id if isinstance(f, ast.Name) else (f.attr if isinstance(f, ast.Attribute) else None)
+            if name in CONSUMERS or name in ("join", "extend", "update", "fromkeys"):
+                consumed.add(id(n.args[0]))
+    for n in _own_nodes(fn):
+        if isinstance(n, ast.GeneratorExp) and id(n) in consumed:
+            continue
+        if isinstance(n, (ast.Lambda, ast.FunctionDef, ast.AsyncFunctionDef, ast.GeneratorExp)):
+            bound = set()
+            if isinstance(n, (ast.Lambda, ast.FunctionDef, ast.AsyncFunctionDef)):
+                bound = {x.arg for x in n.args.args + n.args.kwonlyargs + n.args.posonlyargs}
+                # default values are evaluated at creation time, in the helper's frame: not a capture
+                inner = [n.body] if isinstance(n, ast.Lambda) else list(n.body)
+            else:
+                # the first iterable of a generator expression is evaluated immediately
+                inner = [n.elt] + [g for gen in n.generators for g in gen.ifs] + [gen.iter for gen in n.generators[1:]]
+                bound = {x.id for gen in n.generators for x in ast.walk(gen.target) if isinstance(x, ast.Name)}
+            for part in inner:
+                for x in ast.walk(part):
+                    if isinstance(x, ast.Name) and isinstance(x.ctx, ast.Load) and x.id in own and x.id not in bound and x.id not in ("self", "cls"):
+                        return x.id
+    return None
+
+
 def _eligible(fn):
     """None when fn can be expanded, else the reason it cannot"""
     a = fn.args
     if a.vararg or a.kwarg:
         return "*args/**kwargs"
+    cap = _captures_frame(fn)
+    if cap is not None:
+        return "creates a closure over its own frame (%s)" % cap
     if a.posonlyargs:
         return "positional-only parameters"
     for n in _own_nodes(fn):
